@@ -264,7 +264,7 @@ def run(ctx):
     bases = opts.get("bases", "all")
     base_kv = {"bases": bases}
     kv = {"families": fams, "bases": bases, "cli_every": cli_every if with_cli else 0, "clidir": clidir}
-    r = inproc.run_sharded("vh-front", "front", ctx.seed, count, "c06", timeout=ctx.pick(900, 3000), kv=kv)
+    r = inproc.run_sharded("vh-front", "front", ctx.seed, count, "c06", timeout=ctx.pick(1800, 3600), kv=kv)
 
     # ---- in-process results -------------------------------------------------------------------------------
     panicked_idx = set()
